@@ -9,6 +9,7 @@ from ..rules.directives import run_directive, unwrap
 from ..rules.world import STATE, DOT, Shapes, eager_interp, metacommand
 from . import c14, c15, c13, c01, c11
 from . import c03
+from . import c06
 
 EXPLANATION = (
     "Decided: which exceptions can escape to the catch-all of main_cli from explicit raise/assert sites and from an "
@@ -223,5 +224,7 @@ def run(ck):
     ck.run_rule("P10", "open() of program-given paths: OSError and ValueError are reported", 3, partial.rule_P10)
     ck.run_rule("P11", "chr() of operand values: ValueError and OverflowError are reported", 1, partial.rule_P11)
     ck.run_rule("P12", "multipliers / ranges / exponents taken from operands are bounded", 2, partial.rule_P12)
+    ck.run_rule("C06.R1c", "declared operands reach get_as_int / get_as_str as (state, what, statement token, operand token): a symbol operand does not die on a permuted call", 4, c06.rule_cook_contract)
+    ck.run_rule("C03.R1u", "a name nobody defines: one error, then an integer value and no definition site (no None reaches arithmetic)", 1, c11.rule_undefined_value)
     ck.run_rule("C11.R5", "'.extern all' leaves a usable location (P7)", 4, c11.rule_R5)
     ck.run_rule("C03.R6", "operators applied to not-yet-known operands defer and later evaluate without raising", 9, c03.rule_R6)
